@@ -351,6 +351,18 @@ def Spec.offeredBy (sp : Spec α) (best : Option α) : Op α → List α
   | .addAll xs => sp.eff best xs
   | _ => []
 
+/-- which part of a batch a `Greedy` looks at: everything, or (short-circuiting fold) the considered prefix -/
+def greedyEff (shortCircuit : Bool) (c : Cfg α) : Option α → List α → List α :=
+  if shortCircuit then consideredPrefix c.le else fun _ xs => xs
+
+/-- the specification instances of the three populations -/
+def greedySpec (shortCircuit : Bool) (c : Cfg α) : Spec α :=
+  ⟨c.le, 1, decide (1 ≤ c.selSize), true, greedyEff shortCircuit c⟩
+
+def elitismSpec (c : Cfg α) : Spec α := ⟨c.le, c.cap, decide (1 ≤ c.selSize), true, fun _ xs => xs⟩
+
+def rosomaxaSpec (c : Cfg α) : Spec α := ⟨c.le, c.cap, decide (1 ≤ c.selSize), false, fun _ xs => xs⟩
+
 section
 variable [DecidableEq α]
 
